@@ -451,6 +451,12 @@ def exec_datasets(case, ctx):
                   f"(up to the documented normalisation): {diff}")
         ctx.check(tuple(td.batch_size) == (size,), f"dataset|{tag}|batch_size",
                   f"loaded batch size {tuple(td.batch_size)} != ({size},)")
+        # reading the same file again in the same process (val_file == test_file, a train file re-read every epoch)
+        # must give the same instances again, also after the first result was post-processed / consumed
+        td_again = ctx.guard(env.load_data, fn, what=f"load_data_again|{clsname}")
+        diff2 = td_diff(exp, td_again)
+        ctx.check(diff2 is None, f"dataset|{tag}|second_load_differs|{clsname}",
+                  f"loading the same file a second time gives different instances: {diff2}")
 
         # ---- same episode on the loaded and on the in-memory instance
         modes, streams = rows_of(case, size)
@@ -480,6 +486,9 @@ def exec_mtvrp(case, ctx):
         fn = os.path.join(d, "mtvrp.npz")
         ctx.guard(env.generator.save_data, td, fn, what="mtvrp.save_data")
         loaded = ctx.guard(env.load_data, fn, scale=scale, what="mtvrp.load_data")
+        loaded_again = ctx.guard(env.load_data, fn, scale=scale, what="mtvrp.load_data_again")
+        d2 = td_diff(loaded, loaded_again)
+        ctx.check(d2 is None, f"mtvrp|second_load_differs|{sl}", f"loading the same file twice gives different instances: {d2}")
     exp = {k: v.clone() for k, v in want.items()}
     if scale:
         C = want["capacity_original"].numpy()
